@@ -114,6 +114,7 @@ func plans(prop string, thorough bool, seed int64) []plan {
 			m = safetyMode(prop, pp.pol.String(), pp.byz)
 		}
 		m.Policy = pp.pol
+		m.ByzAll = pp.byzAll
 		out = append(out, plan{pp.sc, m, k, t})
 	}
 	return out
